@@ -20,7 +20,7 @@ import (
 	"github.com/flamego/flamego/verifharness/internal/gen"
 )
 
-const rule = "case = request method in {GET, HEAD, POST, head} x an underlying writer (with or without http.Flusher, with or without io.ReaderFrom) x a history of 1..14 operations over {WriteHeader(100..999), Write / io.WriteString / io.Copy of 0..64 bytes or of 0.5..70 KB (optionally cut short by the underlying writer with an error), Flush, Before(hook)}; hooks set a header, read Status()/Written() and log themselves. " +
+const rule = "case = request method in {GET, HEAD, POST, head} x an underlying writer (with or without http.Flusher, with or without io.ReaderFrom; sometimes itself a fresh flamego ResponseWriter around the spy) x a history of 1..14 operations over {WriteHeader(100..999), Write / io.WriteString / io.Copy of 0..64 bytes or of 0.5..70 KB (optionally cut short by the underlying writer with an error), Flush, Before(hook)}; hooks set a header, read Status()/Written(), log themselves and sometimes register one more function while they run. " +
 	"Oracle: a state-machine model written from the statement, compared after every step (Status, Written, Size, return values of Write) together with invariants over the log of calls the underlying writer received (<=1 WriteHeader, before every Write/Flush; hooks registered before the trigger ran exactly once, in reverse order, before that WriteHeader, and saw Status()==0; later hooks never run). " +
 	"non-trivial = a history with >=2 hooks and a trigger, or a second WriteHeader / an implicit 200, or a body write on HEAD, or a short write; distinct by case text"
 
@@ -35,6 +35,10 @@ type Op struct {
 	K     string `json:"op"` // wh | w | ws (io.WriteString) | cp (io.Copy from a plain reader) | f | before
 	V     int    `json:"v,omitempty"`
 	Short int    `json:"short,omitempty"` // w: the underlying writer accepts only V-Short bytes and errors (when >0)
+	// Nest (before): while it runs, the hook registers one more function -
+	// too late to count as "registered before the first write"; whether that one
+	// runs is left open, the ones registered in time are not affected by it.
+	Nest bool `json:"registers_another,omitempty"`
 }
 
 type Case struct {
@@ -43,7 +47,11 @@ type Case struct {
 	// ReaderFrom: the underlying writer also implements io.ReaderFrom (as
 	// net/http's own response writer does).
 	ReaderFrom bool `json:"reader_from,omitempty"`
-	Ops        []Op `json:"ops"`
+	// Stacked: the writer handed to NewResponseWriter is itself a fresh flamego
+	// ResponseWriter (of a GET request) around the spy, as when one Flame
+	// instance is mounted inside another.
+	Stacked bool `json:"stacked,omitempty"`
+	Ops     []Op `json:"ops"`
 }
 
 // spy is the underlying writer.
@@ -111,6 +119,9 @@ func checkCase(c Case) (out evid.Outcome) {
 		under = flushSpy{s}
 	case c.ReaderFrom:
 		under = readFromSpy{s}
+	}
+	if c.Stacked {
+		under = flamego.NewResponseWriter(http.MethodGet, under)
 	}
 	w := flamego.NewResponseWriter(c.Method, under)
 
@@ -221,6 +232,9 @@ func checkCase(c Case) (out evid.Outcome) {
 				if rw.Status() != 0 || rw.Written() {
 					hookRuns = append(hookRuns, -1000-id) // marks "saw a status"
 				}
+				if op.Nest {
+					rw.Before(func(flamego.ResponseWriter) {})
+				}
 			})
 		}
 		// truthfulness after every step
@@ -278,6 +292,10 @@ func checkCase(c Case) (out evid.Outcome) {
 		out.NonTrivial = true
 		out.Classes = append(out.Classes, "short-write")
 	}
+	if c.Stacked {
+		out.NonTrivial = true
+		out.Classes = append(out.Classes, "stacked-wrappers")
+	}
 	if nHooks > hooksAtTrigger && triggered {
 		out.Classes = append(out.Classes, "late-hook")
 	}
@@ -308,6 +326,7 @@ func genCase(t *rapid.T) Case {
 		Method:     []string{"GET", "HEAD", "POST", "head", "GET", "HEAD"}[rapid.IntRange(0, 5).Draw(t, "method")],
 		Flusher:    rapid.Bool().Draw(t, "flusher"),
 		ReaderFrom: rapid.Bool().Draw(t, "readerfrom"),
+		Stacked:    rapid.IntRange(0, 4).Draw(t, "stacked") == 0,
 	}
 	n := rapid.IntRange(1, 14).Draw(t, "nops")
 	hook := 0
@@ -331,7 +350,7 @@ func genCase(t *rapid.T) Case {
 			c.Ops = append(c.Ops, Op{K: "f"})
 		default:
 			hook++
-			c.Ops = append(c.Ops, Op{K: "before", V: hook})
+			c.Ops = append(c.Ops, Op{K: "before", V: hook, Nest: rapid.IntRange(0, 3).Draw(t, "nest") == 0})
 		}
 	}
 	return c
